@@ -81,7 +81,7 @@ def build(ts):
     if ts.get("zone"):
         return d.replace(tzinfo=ZoneInfo(ts["zone"]), fold=ts.get("fold", 0))
     if ts.get("offset_s") is not None:
-        return d.replace(tzinfo=timezone(timedelta(seconds=ts["offset_s"])))
+        return d.replace(tzinfo=timezone(timedelta(seconds=ts["offset_s"], microseconds=ts.get("offset_us", 0))))
     return d.replace(fold=ts.get("fold", 0))
 
 
@@ -114,12 +114,28 @@ def tspecs(draw, tz, aware_only=False):
         else:
             wall = draw(st.datetimes(min_value=LO, max_value=HI))
         return {"iso": wall.isoformat(), "fold": draw(st.integers(0, 1))}
-    d = draw(st.one_of(st.datetimes(min_value=LO, max_value=HI), st.sampled_from([datetime(1970, 1, 1), datetime(1969, 12, 31, 23, 59, 59, 999999), datetime(2038, 1, 19, 3, 14, 7, 999999), datetime(1700, 6, 1), datetime(2239, 6, 1, 1, 2, 3, 4)])))
+    # instants where float timestamps change precision (|t| around 2**31, 2**32 seconds from the epoch) get extra weight
+    spans = st.one_of(st.datetimes(min_value=datetime(2106, 2, 1), max_value=datetime(2112, 9, 30)), st.datetimes(min_value=datetime(1827, 4, 1), max_value=datetime(1833, 12, 1)),
+                      st.datetimes(min_value=datetime(2038, 1, 18), max_value=datetime(2038, 1, 21)), st.datetimes(min_value=datetime(1901, 12, 12), max_value=datetime(1901, 12, 15)))
+    d = draw(st.one_of(st.datetimes(min_value=LO, max_value=HI), st.datetimes(min_value=LO, max_value=HI), spans, st.sampled_from([datetime(1970, 1, 1), datetime(1969, 12, 31, 23, 59, 59, 999999), datetime(2038, 1, 19, 3, 14, 7, 999999), datetime(1700, 6, 1), datetime(2239, 6, 1, 1, 2, 3, 4)])))
     if kind == "utc":
         return {"iso": d.isoformat(), "offset_s": 0}
     if kind == "offset":
-        return {"iso": d.isoformat(), "offset_s": draw(st.one_of(st.integers(-86399, 86399), st.sampled_from([0, 3600, -28800, 20700, 37800, 1, -1, 86399])))}
-    return {"iso": d.isoformat(), "zone": draw(st.sampled_from(IANA)), "fold": draw(st.integers(0, 1))}
+        spec = {"iso": d.isoformat(), "offset_s": draw(st.one_of(st.integers(-86399, 86399), st.sampled_from([0, 3600, -28800, 20700, 37800, 1, -1, 86399])))}
+        if draw(st.integers(0, 5)) == 0:
+            # offsets need not be whole seconds
+            spec["offset_s"] = draw(st.sampled_from([0, 0, 0, 1, -1, 3600]))
+            spec["offset_us"] = draw(st.sampled_from([250000, 500000, 999999, 1, -250000, -1]))
+        return spec
+    zone = draw(st.sampled_from(IANA))
+    tr = transitions(zone)
+    if tr and draw(st.integers(0, 2)) == 0:
+        # a wall time of that zone close to one of its transitions (inside the fold or the gap when the offset moves)
+        base = draw(st.sampled_from(tr))
+        z = ZoneInfo(zone)
+        before = (base.replace(tzinfo=UTC) - timedelta(seconds=1)).astimezone(z).replace(tzinfo=None)
+        d = before + timedelta(seconds=draw(st.integers(-5400, 5400)), microseconds=draw(st.sampled_from([0, 0, 1, 999999])))
+    return {"iso": d.isoformat(), "zone": zone, "fold": draw(st.integers(0, 1))}
 
 
 def as_offset_spec(instant, offset_s):
@@ -227,10 +243,24 @@ def check_state(case, real, exp, stage, acc):
         fail("sorted-order", case, "%s all() order %s, expected stable time order %s" % (where, srt, order))
     ops = {"==": lambda a, b: a == b, "!=": lambda a, b: a != b, "<": lambda a, b: a < b, "<=": lambda a, b: a <= b, ">": lambda a, b: a > b, ">=": lambda a, b: a >= b}
     T = TimeQuery()
+    # test() and map() on time are answered from the index by rebuilding datetimes from its float timestamps: every stored instant must
+    # come back exactly (microsecond for microsecond)
+    for e in sorted(set(exp))[:6]:
+        want = [i for i in range(len(exp)) if exp[i] == e]
+        for label, q in (("test(== %s)" % e.isoformat(), T.test(lambda t, _e=e: t == _e)), ("map(ident) == %s" % e.isoformat(), T.map(lambda t: t) == e), ("map(-1us) == ", T.map(lambda t: t - timedelta(microseconds=1)) == e - timedelta(microseconds=1))):
+            try:
+                got = [int(p.tags["i"]) for p in db.search(q, sorted=False)]
+            except Exception as ex:
+                fail("read-raised", case, "%s Time.%s raised %r" % (where, label, ex))
+            if got != want:
+                fail("time-query", case, "%s Time.%s selects %s, instants say %s; stored %s" % (where, label, got, want, [x.isoformat() for x in exp]))
+            acc.ev()
     for r in case["rhs"]:
         rv = build(r)
+        # instants are compared in UTC: Python's own == between zones is special-cased (never equal) for times inside a DST fold
+        rv_utc = rv.astimezone(UTC)
         for name, f in ops.items():
-            want = [i for i in range(len(exp)) if f(exp[i], rv)]
+            want = [i for i in range(len(exp)) if f(exp[i], rv_utc)]
             q = {"==": T == rv, "!=": T != rv, "<": T < rv, "<=": T <= rv, ">": T > rv, ">=": T >= rv}[name]
             try:
                 got = [int(p.tags["i"]) for p in db.search(q, sorted=False)]
@@ -356,10 +386,17 @@ def classify(case, acc):
                 acc.cls("input_naive_in_gap" if back != d.replace(fold=0) else "input_naive_in_fold")
         elif s.get("zone"):
             acc.cls("input_iana")
+            zz = ZoneInfo(s["zone"])
+            if d.replace(fold=0).utcoffset() != d.replace(fold=1).utcoffset():
+                acc.cls("input_iana_in_fold_or_gap")
         else:
             acc.cls("input_fixed_offset" if s.get("offset_s") else "input_utc")
         y = expected_utc(s, tz).year
         acc.cls("year<1970" if y < 1970 else "year>2100" if y > 2100 else "year_1970_2100")
+    for r in case["rhs"]:
+        rv = build(r)
+        if r.get("zone") and rv.replace(fold=0).utcoffset() != rv.replace(fold=1).utcoffset():
+            acc.cls("rhs_iana_in_fold_or_gap")
     for u in case["updates"]:
         acc.cls("update_" + u[0] + ("_naive" if u[0] == "static" and not u[2].get("zone") and u[2].get("offset_s") is None else ""))
 
